@@ -215,6 +215,61 @@ UNITS += [
     typed("has_data", "DataId", "vblobid_of_data", "Data", "has"),
 ]
 
+# PackIndexes::next, second half: collecting the blobs of the current pack (the first half -- a loop with
+# `break (pack_idx, idx)` holding two &mut into self.idx -- is outside Verus; its result is the pair of parameters here)
+UNITS += [
+    Unit(name="pack_indexes_collect", file=B, kind="block", within="fn next(&mut self) -> Option<Self::Item> {",
+         anchor="let mut pack = IndexPack {", block_end="@fn_end",
+         wrap_open="impl PackIndexesV {", wrap_close="}",
+         block_sig="fn pack_indexes_collect(&self, pack_idx: &mut u32, idx: &mut usize) -> (r: Option<IndexPack>)",
+         block_tail="",
+         functions=["<index::binarysorted::PackIndexes as Iterator>::next (collecting the blobs of the current pack)"],
+         rewrites=[
+             Rw(r"IndexPack \{\s*id: (?P<e>[^,]*?),\s*\.\.Default::default\(\)\s*\}", r"vindexpack_with_id(\g<e>)", regex=True,
+                why="struct update from Default::default() -> stub: this id, no blobs (derived Default ASSUMED to give the empty pack)"),
+         ],
+         contract="""
+    requires
+        // what the first half of next() and Index::into_iter establish: the current pack exists, the entries are grouped by
+        // ascending pack number and *idx stands at the first entry that does not belong to an earlier pack
+        *old(pack_idx) < self.c.0.at(self.tpe).packs@.len(), *old(pack_idx) < u32::MAX,
+        self.c.0.at(self.tpe).entries.kind() == 2 ==> {
+            let es = self.c.0.at(self.tpe).entries.full();
+            &&& *old(idx) <= es.len()
+            &&& forall|i: int, j: int| 0 <= i <= j < es.len() ==> (#[trigger] es[i]).pack_idx <= (#[trigger] es[j]).pack_idx
+            &&& forall|i: int| 0 <= i < *old(idx) ==> (#[trigger] es[i]).pack_idx < *old(pack_idx)
+            &&& forall|i: int| *old(idx) <= i < es.len() ==> (#[trigger] es[i]).pack_idx >= *old(pack_idx)
+        },
+    ensures
+        /*@yields_the_current_pack*/ r matches Some(p) && p.id == self.c.0.at(self.tpe).packs@[*old(pack_idx) as int] && *final(pack_idx) == *old(pack_idx) + 1,
+        // exactly the entries the index lists under this pack's number, in order, typed with the iterator's type
+        /*@pack_comes_back_with_exactly_its_blobs*/ self.c.0.at(self.tpe).entries.kind() == 2 ==> {
+            let es = self.c.0.at(self.tpe).entries.full();
+            let p = r->Some_0;
+            &&& *final(idx) == *old(idx) + p.blobs@.len() && *final(idx) <= es.len()
+            &&& forall|j: int| 0 <= j < p.blobs@.len() ==> (#[trigger] p.blobs@[j]) == (IndexBlob { id: es[*old(idx) + j].id, tpe: self.tpe, location: es[*old(idx) + j].location })
+            &&& forall|i: int| 0 <= i < es.len() ==> ((#[trigger] es[i]).pack_idx == *old(pack_idx) <==> *old(idx) <= i < *final(idx))
+            // and the next call starts from the same kind of state
+            &&& forall|i: int| 0 <= i < *final(idx) ==> (#[trigger] es[i]).pack_idx < *final(pack_idx)
+            &&& forall|i: int| *final(idx) <= i < es.len() ==> (#[trigger] es[i]).pack_idx >= *final(pack_idx)
+        },
+        /*@ids_only_index_yields_no_blobs*/ self.c.0.at(self.tpe).entries.kind() != 2 ==> r->Some_0.blobs@.len() == 0 && *final(idx) == *old(idx),
+""",
+         loops={1: """
+                invariant
+                    self.c.0.at(self.tpe).entries.kind() == 2 && entries@ == self.c.0.at(self.tpe).entries.full(),
+                    *pack_idx == *old(pack_idx), *old(idx) <= *idx <= entries@.len(),
+                    pack.id == self.c.0.at(self.tpe).packs@[*old(pack_idx) as int],
+                    pack.blobs@.len() == *idx - *old(idx),
+                    forall|j: int| 0 <= j < pack.blobs@.len() ==> (#[trigger] pack.blobs@[j]) == (IndexBlob { id: entries@[*old(idx) + j].id, tpe: self.tpe, location: entries@[*old(idx) + j].location }),
+                    forall|i: int| *old(idx) <= i < *idx ==> (#[trigger] entries@[i]).pack_idx == *pack_idx,
+                    forall|i: int| *old(idx) <= i < entries@.len() ==> (#[trigger] entries@[i]).pack_idx >= *pack_idx,
+                    forall|i: int, j: int| 0 <= i <= j < entries@.len() ==> (#[trigger] entries@[i]).pack_idx <= (#[trigger] entries@[j]).pack_idx,
+                decreases entries@.len() - *idx,
+"""},
+         ),
+]
+
 KANI = [
     Harness("index::binarysorted::verif_kani::c17_bounded_pack_indexes_next", kind="bounded",
             bound="iterator state built directly: tree packs {2 blobs, 0 blobs}, data packs {1 blob}; ids/offsets/lengths symbolic",
@@ -225,7 +280,7 @@ KANI_UNWIND = 6
 SATELLITES = [("C05", ["indexpack_blob_type", "gi_new_from_index", "gi_new_from_collector"])]
 
 META = {"not_covered": [
-    "PackIndexes::next / Index::into_iter under Verus (loop with `break (a, b)`: 'complex break expressions' unsupported) - bounded Kani stand-in only",
+    "PackIndexes::next, first half (loop with `break (pack_idx, idx)` holding two &mut into self.idx: 'complex break expressions' unsupported) and Index::into_iter (rayon sort) - bounded Kani stand-in only; the second half (collecting the pack's blobs) is the Verus unit pack_indexes_collect whose precondition states what the first half and the sort leave",
     "GlobalIndex::new_from_collector is a unit of C05 (gi_new_from_collector: exactly the live packs are fed)",
     "EnumMap::map applying the into_index closure to both slots (assumed)",
     "serde of index files",
